@@ -17,7 +17,7 @@ SIZES = {
     "quick": dict(LabLen=2, prepN=5, prepK=2, rand=500, c04rand=1500, c03variants=2, c01rand=300),
     "thorough": dict(LabLen=3, prepN=6, prepK=3, rand=12000, c04rand=40000, c03variants=8, c01rand=8000),
 }
-FILE_INVS = ["DecodeIsInverse", "NoFail", "EmitInv"]
+FILE_INVS = ["DecodeIsInverse", "NoFail", "ReaderRulesOK", "EmitInv"]
 
 
 def run_mc(mode, sz, work, res, emit=True):
